@@ -68,7 +68,7 @@ func alphabet(c config) []string {
 		ev = append(ev, "nocid@p1", "wrongcid@p1")
 		if c.rrcExpected() {
 			ev = append(ev, "resp@p1", "respdrop@p1", "resplate@p1", "respfrom@att", "respcookie@p1", "resp@p2", "resp@peer",
-				"keep@p1", "respold@p1", "stalechal@p1")
+				"keep@p1", "respold@p1", "stalechal@p1", "chal@p1")
 		}
 	}
 
@@ -191,6 +191,11 @@ func configs(thorough bool) []cfgDepth {
 			pl = 14
 		}
 		out = append(out, cfgDepth{config{ver: ver, ccid: 100, scid: 1, rrc: true, vServer: true, payLen: pl}, deep})
+		// a path_response towards a 200-byte CID is larger than 5x one path_challenge V receives: the budget of
+		// the first challenge admits no answer, that of the second exactly one, that of the third none again
+		// (what is LEFT of the budget counts, not the budget as a whole); V is the server, then the client
+		out = append(out, cfgDepth{config{ver: ver, ccid: 200, scid: 1, rrc: true, vServer: true, payLen: pl}, deep})
+		out = append(out, cfgDepth{config{ver: ver, ccid: -1, scid: 200, rrc: true, vServer: false, payLen: pl}, deep})
 	}
 
 	return out
